@@ -785,6 +785,9 @@ class VBSClusteringManager:
             cardinality: int = vci.get("clusterCardinalitySize", 1)
             # Extract radius from circular bounding box if present
             bbox = vci.get("clusterBoundingBoxShape")
+            if isinstance(bbox, tuple):
+                # A decoded VAM carries the Shape CHOICE as (alternative, value)
+                bbox = {bbox[0]: bbox[1]}
             radius: Optional[float] = None
             if bbox and "circular" in bbox:
                 radius = float(bbox["circular"].get("radius", vam_constants.MAX_CLUSTER_DISTANCE))
